@@ -166,6 +166,18 @@ theorem C07_cache_transparent_from {α : Type} [DecidableEq α] (nb : α → Lis
   | get c r ic => exact (getNbhd_spec nb r ic c cs h).2
   | prop c => exact (nbProp_spec nb c cs h).2
 
+/-- The memo key of the model is the memo key of the source (review M24; generated obligation, re-checked on every run): in
+    `cell.py` as it is now `get_neighborhood` and `_neighborhood` are memoised on all their arguments (`functools.cache` / `lru_cache`) and their parameters — hence
+    whose memo key — are exactly `(self, radius, include_center)` (the `Memo` key `(cell, r, ic)` of `nbhdC` / `getNbhd`: no
+    argument is missing from the key, none is added), `neighborhood` is a `cached_property` of the cell alone (`Caches.prop`),
+    `get_neighborhood` hands both arguments on to `_neighborhood`, and the running class agrees with the source. -/
+theorem C07_memo_keys_generated :
+    Gen.nbhdMemo = [("get_neighborhood", ["memo-on-all-arguments"], ["self", "radius", "include_center"]),
+                    ("_neighborhood", ["memo-on-all-arguments"], ["self", "radius", "include_center"]),
+                    ("neighborhood", ["cached_property"], ["self"])] ∧
+    Gen.nbhdMemoProbe = Gen.nbhdMemo ∧
+    Gen.nbhdInnerCall = ["radius=radius", "include_center=include_center"] := by decide
+
 /-- `Cell.connections` is a dict in the model too: in every grid (any kind, dimension vector, torus flag), every
     `Network` and every `VoronoiGrid` no key occurs twice among a cell's connections, so "the cell under key k"
     (`connections.get(k)`, what `move_relative` follows) and the listed items say the same. -/
